@@ -1769,7 +1769,7 @@ class C17(Spec):
                   'escaped text minus the backslash, as a finished fragment), with a computed example over all inline kinds; '
                   'C17_escaped_invocation with C17_parametrised_pattern_skips_simple (in text with no other brace or backslash an escaped macro '
                   'invocation comes out of macros.render as the invocation without its backslash, defined or not, with no diagnostic, and the '
-                  'second pass cannot pick it up -- for every prefix, suffix and name, through the exact regex semantics); C17_escaped_header_is_literal (a header line with a backslash before it is rendered as the paragraph with the literal text: the header rule drops the backslash and none of the remaining rules matches, for one to six hash signs and every title over the safe alphabet). Other line-level '
+                  'second pass cannot pick it up -- for every prefix, suffix and name, through the exact regex semantics); C17_escaped_header_is_literal (a header line with a backslash before it is rendered as the paragraph with the literal text: the header rule drops the backslash and none of the remaining rules matches, for one to six hash signs and every title over the safe alphabet); C17_escaped_emphasis_is_literal with C17_escaped_quote_match_unique (for every pre, body, post over the plain alphabet spans.render of pre, backslash, star, body, star, post is the escaped literal text without the backslash: the quote pattern matches at the backslash with one derivation, the escaped-quote loop resumes after the opening star, the rest holds a single star and has no derivation, the line-break pattern is excluded by inversion, the unescape pass has exactly one match). Other line-level '
                   'escapes and quotes are decided by the literal-text oracle and correspondence; several element kinds violate the property on '
                   'the unchanged code (known findings).')
     rule = ('element kinds x generated instances x positions (line start, after text, in quotes, in list items) x 1-8 escaped elements, '
@@ -1831,6 +1831,11 @@ class C17(Spec):
     def search_cases(self, ctx, boost):
         rng = ctx.rng('S')
         out = [self.gen_case(rng) for _ in range(sizes(ctx, 1500, 40000) * (3 if boost else 1))]
+        for src, exp, kind in thm_instances.instances('C17'):
+            for mode in (0, 1):
+                c = H([call(src, safeMode=mode, reset=True, cb=True)], state=True)
+                c['meta'] = {'expect': exp, 'kinds': [kind]}
+                out.append(c)
         for k, x in self.LINE:
             if x:
                 for mode in (0, 1):
